@@ -20,7 +20,7 @@ class C18(Prop):
     RULE = ("cases = one case per (history, cut). Histories are Hypothesis-generated write histories on an on-disk index whose "
             "FileStorage.write calls are logged in program order; for EACH history EVERY cut after a logged write is taken "
             "(exhaustive at block granularity), plus cuts inside each appending write (quick: 3 byte offsets; thorough: 9, and "
-            "all 127 for the first appends), plus the cut between the two file creations. The files are rebuilt from the log "
+            "all 127 for the first twelve appends), plus the cut between the two file creations. The files are rebuilt from the log "
             "prefix and opened with the rules re-supplied: a TraphException is accepted only if a file is not a whole number "
             "of blocks or one store is missing; otherwise the full observation layer (every traversal and query) must run "
             "without any exception and report only pages (crawled only if finally crawled) and link weights that the completed "
@@ -95,7 +95,7 @@ class C18(Prop):
                     nappends += 1
                     if tier == "quick":
                         offs = sorted({1, ln // 2, ln - 1})
-                    elif nappends <= 6:
+                    elif nappends <= 12:
                         offs = list(range(1, ln))
                     else:
                         offs = sorted({1, 2, 15, 16, 17, ln // 2, 75, 76, ln - 1})
